@@ -7,13 +7,13 @@ CONSTANTS NV, MaxE, Lens, TermNs,
 VARIABLE building
 Empty == [nv |-> NV, E |-> <<>>, hd |-> <<>>, src |-> 1, dst |-> 2, dir |-> "fwd", wd |-> 1, wt |-> 0, rd |-> 1, rt |-> 1,
           sur |-> <<>>, acc |-> "none", delay |-> [i \in 1..8 |-> 0], ok |-> <<>>, bad |-> {}, h |-> [v \in 1..NV |-> 0],
-          itl |-> -1, szl |-> -1, init |-> <<0, 0>>, ties |-> FALSE, cu |-> <<1000, 1, 1000, 1>>]
+          itl |-> -1, szl |-> -1, init |-> <<0, 0>>, ties |-> FALSE, cu |-> <<1000, 1, 1000, 1>>, rtf |-> 0, rtx |-> FALSE]
 KeyLE(a, b) == a[1] < b[1] \/ (a[1] = b[1] /\ a[2] < b[2]) \/ (a[1] = b[1] /\ a[2] = b[2] /\ a[3] <= b[3])
 Init == /\ scn = Empty /\ queue = <<>> /\ g = <<>> /\ tree = <<>> /\ cur = 0 /\ lastE = 0 /\ todo = {} /\ iters = 0
-        /\ outcome = "run" /\ pc = "build" /\ reop = FALSE
+        /\ outcome = "run" /\ pc = "build" /\ reop = FALSE /\ exh = -1
         /\ kq = [k |-> 1, sim |-> [type |-> "accept_all", p |-> 0], term |-> [type |-> "exact", n |-> 0]] /\ accepted = <<>> /\ remaining = {} /\ kdone = FALSE
         /\ building = TRUE
-Frozen == UNCHANGED <<queue, g, tree, cur, lastE, todo, iters, outcome, pc, reop>>
+Frozen == UNCHANGED <<queue, g, tree, cur, lastE, todo, iters, outcome, pc, reop, exh>>
 AddEdge == /\ building /\ Len(scn.E) < MaxE
            /\ \E s \in 1..NV, d \in 1..NV, len \in Lens :
                  /\ IF scn.E = <<>> THEN TRUE ELSE KeyLE(scn.E[Len(scn.E)], <<s, d, len>>)
